@@ -46,6 +46,16 @@ PINS = {
             ('operator_dict.py', 'UnaryOperatorDict', '__call__')],
     'C09': CACHE + [('operator_dict.py', 'OperatorDict', '_call_binary'), ('operator_dict.py', 'UnaryOperatorDict', '__call__')],
     'C10': CACHE,
+    'C07': [('codegen.py', None, 'codegen_inv'), ('codegen.py', None, 'codegen_hitzer_inv'), ('codegen.py', None, 'codegen_shirokov_inv'),
+            ('codegen.py', None, 'codegen_div'), ('codegen.py', None, 'power_supply'), ('codegen.py', 'AdditionChains', 'minimal_chains'),
+            ('multivector.py', 'MultiVector', '__pow__'), ('multivector.py', 'MultiVector', 'inv')],
+    'C15': [('multivector.py', 'MultiVector', m) for m in ('__new__', 'fromkeysvalues', '__getattr__', '__contains__', 'items', 'asfullmv',
+                                                           'map', 'filter', 'grade')]
+           + [('algebra.py', 'Algebra', m) for m in ('multivector', 'purevector', 'evenmv', 'oddmv', '_blade2canon', 'indices_for_grades')],
+    'C19': [('codegen.py', None, 'codegen_outerexp'), ('codegen.py', None, 'codegen_outersin'), ('codegen.py', None, 'codegen_outercos'),
+            ('codegen.py', None, 'codegen_outertan'), ('codegen.py', None, 'codegen_sqrt'), ('codegen.py', None, 'codegen_normsq'),
+            ('multivector.py', 'MultiVector', '__pow__'), ('multivector.py', 'MultiVector', 'exp'), ('multivector.py', 'MultiVector', 'norm'),
+            ('multivector.py', 'MultiVector', 'normalized'), ('multivector.py', 'MultiVector', '__bool__')],
     'C17': POLY,
     'C18': [('matrixreps.py', None, 'matrix_rep'), ('matrixreps.py', None, 'ordering_matrix'), ('algebra.py', 'Algebra', 'matrix_basis'), ('multivector.py', 'MultiVector', 'asmatrix'),
             ('multivector.py', 'MultiVector', 'frommatrix')],
